@@ -121,6 +121,10 @@ pub struct HistCase {
     pub segs: Vec<u16>,
     /// extra polls after the end of stream was first signalled (C07)
     pub extra_polls: u8,
+    /// sample reader only: after the listed operations turn the reader into its iterator and
+    /// drain it; the items must be exactly the rest of the stream
+    #[serde(default)]
+    pub iterate_tail: bool,
 }
 
 /// resolves a target to a position in `unit`s (unit = bytes per PCM frame for the byte reader, 1 for sample readers)
@@ -218,7 +222,8 @@ pub fn run_history(c: &HistCase, seekable: bool, out: &mut Outcome) {
 
     let mut ops: Vec<Op> = c.ops.clone();
     // C07 mode: keep reading to the end, then poll a few more times
-    if !seekable {
+    let iterate_tail = c.iterate_tail && c.reader == ReaderSel::Sample;
+    if !seekable && !iterate_tail {
         for _ in 0..4096 {
             if c.reader == ReaderSel::Channel {
                 ops.push(Op::Fill);
@@ -499,6 +504,35 @@ pub fn run_history(c: &HistCase, seekable: bool, out: &mut Outcome) {
             out.nontrivial = true;
         }
     }
+    if iterate_tail {
+        if let (Rd::S(r), Some(p)) = (rd, pos) {
+            out.label("iterator-after-partial-use");
+            out.evals += 1;
+            let limit = model_samples.len() + 16;
+            let res = guarded(move || -> Result<Vec<i32>, String> {
+                let mut got = vec![];
+                for s in r {
+                    got.push(s.map_err(|e| e.to_string())?);
+                    if got.len() > limit {
+                        break;
+                    }
+                }
+                Ok(got)
+            });
+            let rest = &model_samples[(p as usize).min(model_samples.len())..];
+            match res {
+                Err(pn) => out.fails.push(Fail::panic(&format!("panic:{rname}"), &pn)),
+                Ok(Err(e)) => fail(out, "iterate-error", format!("iterating a valid stream from sample {p} failed: {e}")),
+                Ok(Ok(got)) => {
+                    if got != rest {
+                        let at = got.iter().zip(rest).position(|(a, b)| a != b);
+                        fail(out, "iterate-data-mismatch", format!("into_iter() at interleaved sample {p}: {} items for the remaining {}, first difference at {:?}", got.len(), rest.len(), at));
+                    }
+                }
+            }
+        }
+        return;
+    }
     // C07: everything must have been delivered exactly once
     if !seekable {
         if let Some(p) = pos {
@@ -630,8 +664,8 @@ pub fn reader_strategy() -> BoxedStrategy<ReaderSel> {
 }
 
 pub fn hist_strategy() -> BoxedStrategy<HistCase> {
-    (file_strategy(), reader_strategy(), proptest::collection::vec(op_strategy(true), 1..40))
-        .prop_map(|(file, reader, ops)| HistCase { file, reader, ops, segs: vec![], extra_polls: 0 })
+    (file_strategy(), reader_strategy(), proptest::collection::vec(op_strategy(true), 1..40), prop_oneof![3 => Just(false), 1 => Just(true)])
+        .prop_map(|(file, reader, ops, iterate_tail)| HistCase { file, reader, ops, segs: vec![], extra_polls: 0, iterate_tail })
         .boxed()
 }
 
